@@ -8,6 +8,7 @@ import (
 	"go/types"
 	"sort"
 	"strings"
+	"time"
 )
 
 // Val is a symbolic value: an SMT term with its Go type. Untyped constants carry C and Ty == nil.
@@ -54,15 +55,16 @@ type Flow struct {
 }
 
 type Obligation struct {
-	Name    string
-	Kind    string
-	Where   string
-	Human   string
-	PC      string
-	Goal    string
-	NAssume int
-	Ctx     *Ctx
-	Fn      string
+	Name            string
+	TimeoutOverride time.Duration
+	Kind            string
+	Where           string
+	Human           string
+	PC              string
+	Goal            string
+	NAssume         int
+	Ctx             *Ctx
+	Fn              string
 	// results
 	Status  string // unsat (discharged) | sat | unknown | timeout | error
 	Backend string
